@@ -399,7 +399,8 @@ def gen_response(r, idx, nonce, req_truth, feats, opts, last):
     if opts.get('p_interim') and r.chance(opts['p_interim']):
         # an interim 100 (Continue) before the final response (a server may send one whether or not the client asked for it;
         # the client may have sent the whole request already)
-        wire = r.pick([b'HTTP/1.1 100 Continue\r\n\r\n', b'HTTP/1.1 100 Continue\r\nX-Interim: 1\r\n\r\n', b'HTTP/1.0 100 continue\r\n\r\n']) + wire
+        # (one, or - a proxy and the origin may each send theirs, RFC 7231 6.2 - several)
+        wire = b''.join(r.pick([b'HTTP/1.1 100 Continue\r\n\r\n', b'HTTP/1.1 100 Continue\r\nX-Interim: 1\r\n\r\n', b'HTTP/1.0 100 continue\r\n\r\n']) for _ in range(r.pick([1, 1, 2, 3]))) + wire
         feats.add('interim-100')
         t['interim'] = 1
     headers = [[e[0], e[1]] for e in hb.expected]
